@@ -350,6 +350,9 @@ pub struct Hostile {
     max: u64,
     replay_p: f64,
     recorded: Vec<(usize, Vec<u8>)>,
+    /// 1 = mostly data frames (never-completing packets), 2 = flood of empty data frames whose ids are 32 apart
+    focus: u8,
+    flood_next: std::collections::BTreeMap<usize, u32>,
 }
 
 impl Hostile {
@@ -377,8 +380,17 @@ impl Hostile {
             max: plan.param("hostile_max", 400.0) as u64,
             replay_p: if rng.chance(0.5) { 0.1 } else { 0.0 },
             recorded: Vec::new(),
+            focus: plan.param("hostile_focus", 0.0) as u8,
+            flood_next: Default::default(),
             rng,
         }
+    }
+}
+
+impl Hostile {
+    pub fn set_rate(&mut self, rate: f64, burst_max: u64) {
+        self.rate = rate;
+        self.burst_max = burst_max;
     }
 }
 
@@ -405,7 +417,27 @@ impl Adversary for Hostile {
             };
             let n = self.rng.range(1, self.burst_max);
             for _ in 0..n {
-                let bytes = if self.replay_p > 0.0 && !self.recorded.is_empty() && self.rng.chance(self.replay_p) {
+                let bytes = if self.focus == 2 {
+                    // acknowledgement-queue flood: every frame opens a new ack group
+                    let base = self.seen[victim].rx_frame_base.unwrap_or(0);
+                    let next = self.flood_next.entry(victim).or_insert(base);
+                    let id = *next;
+                    *next = next.wrapping_add(32);
+                    enc_data(id, false, &[])
+                } else if self.focus == 1 && self.rng.chance(0.85) {
+                    let mut view = self.seen[victim].clone();
+                    if let Some(p) = self.seen[from].tx_packet {
+                        view.rx_packet_base.get_or_insert(p);
+                    }
+                    // keep drawing until it is a data frame
+                    let mut b = hostile_frame(&mut self.rng, &view, window, self.allow_big);
+                    let mut tries = 0;
+                    while b.first() != Some(&10) && tries < 20 {
+                        b = hostile_frame(&mut self.rng, &view, window, self.allow_big);
+                        tries += 1;
+                    }
+                    b
+                } else if self.replay_p > 0.0 && !self.recorded.is_empty() && self.rng.chance(self.replay_p) {
                     // replay of a genuine frame at a later time
                     self.recorded[self.rng.below(self.recorded.len() as u64) as usize].1.clone()
                 } else {
@@ -432,4 +464,97 @@ pub const DELIVER_RANK_PUB: u32 = 0x8000_0001;
 
 pub fn _unused() -> u64 {
     key(&[0])
+}
+
+// ---------------------------------------------------------------------------------------------
+
+/// C04's hostile middlebox: once a genuine fragment of a multi-fragment packet has been let
+/// through (links in this scenario preserve order, so it has reached the receiver first), later
+/// genuine frames that have room are re-encoded in transit with one more, forged datagram for the
+/// same packet whose header disagrees with the genuine one (other last-fragment id, channel or
+/// parent leads) and which targets the packet's last fragment slot.
+pub struct Rewriter {
+    rng: Rng,
+    /// (src ep, packet id) -> (channel, wlead, clead, last) of packets with a fragment let through
+    in_progress: std::collections::BTreeMap<(usize, u32), (u8, u16, u16, u16)>,
+    rate: f64,
+}
+
+impl Rewriter {
+    pub fn new(plan: &Plan) -> Self {
+        let mut rng = Rng::keyed(&[plan.fate_seed.unwrap_or(0), 0x72657772]);
+        let rate = *rng.pick(&[0.2, 0.5, 1.0]);
+        Self { rng, in_progress: Default::default(), rate }
+    }
+}
+
+impl Adversary for Rewriter {
+    fn rewrite(&mut self, src: usize, _dst: usize, bytes: &[u8], fate: &Fate, plan: &Plan) -> Option<Vec<u8>> {
+        if !matches!(plan.endpoints[src].kind, EndpointKind::Hc { .. }) {
+            return None;
+        }
+        let Some(uv::Frame::DataFrame(f)) = uv::Frame::read(bytes) else { return None };
+        let clean = fate.copies.iter().any(|c| c.flips.is_empty() && c.trunc.is_none());
+        let mut result = None;
+        let room = uflow::MAX_FRAME_SIZE.saturating_sub(bytes.len());
+        if clean && room >= 16 && f.datagrams.len() < 100 && self.rng.chance(self.rate) {
+            let cands: Vec<((usize, u32), (u8, u16, u16, u16))> = self.in_progress.iter().filter(|((s, _), _)| *s == src).map(|(k, v)| (*k, *v)).collect();
+            if !cands.is_empty() {
+                let ((_, pid), (ch, wl, cl, last)) = cands[self.rng.below(cands.len() as u64) as usize];
+                let len = self.rng.range(1, (room - 14).min(40) as u64) as usize;
+                let mut d = RawDatagram { seq: pid, ch, wlead: wl, clead: cl, frag: last, last, data: vec![0xEE; len], enc: 2 };
+                match self.rng.below(5) {
+                    0 => d.ch = (ch + 1) % 64,
+                    1 => d.wlead = wl.wrapping_add(1),
+                    2 => d.clead = if cl == 0 { wl.max(1) } else { cl + 1 },
+                    3 => {
+                        d.last = last + 1;
+                        d.frag = last + 1;
+                    }
+                    _ => {
+                        d.last = last - 1;
+                        d.frag = last - 1;
+                    }
+                }
+                let mut dgs: Vec<RawDatagram> = f
+                    .datagrams
+                    .iter()
+                    .map(|g| RawDatagram {
+                        seq: g.sequence_id,
+                        ch: g.channel_id,
+                        wlead: g.window_parent_lead,
+                        clead: g.channel_parent_lead,
+                        frag: g.fragment_id,
+                        last: g.fragment_id_last,
+                        data: g.data.to_vec(),
+                        enc: if g.fragment_id_last == 0 && g.data.len() < 64 && g.window_parent_lead < 128 && g.channel_parent_lead < 256 { 0 } else if g.fragment_id_last == 0 && g.data.len() < 256 { 1 } else { 2 },
+                    })
+                    .collect();
+                if self.rng.chance(0.5) {
+                    dgs.insert(0, d);
+                } else {
+                    dgs.push(d);
+                }
+                let out = enc_data(f.sequence_id, f.nonce, &dgs);
+                if out.len() <= uflow::MAX_FRAME_SIZE {
+                    result = Some(out);
+                }
+            }
+        }
+        // learn about packets in progress (this frame's genuine fragments reach the receiver)
+        if clean {
+            for g in f.datagrams.iter() {
+                if g.fragment_id_last > 0 {
+                    self.in_progress.entry((src, g.sequence_id)).or_insert((g.channel_id, g.window_parent_lead, g.channel_parent_lead, g.fragment_id_last));
+                }
+            }
+            if self.in_progress.len() > 64 {
+                let k = *self.in_progress.keys().next().unwrap();
+                self.in_progress.remove(&k);
+            }
+        }
+        result
+    }
+
+    fn on_wire(&mut self, _w: &WireRec, _now_us: u64, _plan: &Plan, _out: &mut Vec<TimedOp>) {}
 }
